@@ -76,18 +76,18 @@ import (
 
 // log message -> point.  Only messages logged while NO lock is held may appear here.
 var c08LogPoints = map[string]string{
-	"streamRouting started":                                  "r.start",
-	"Terminating previous local receiver for shard":          "r.term",
-	"Remove local receiver cancel function for shard":        "r.termRm|r.rmCancel", // resolved by the receiver's previous point
-	"Force remove local ack channel for shard":               "r.termAck",
-	"proxyStreamReceiver outgoingContext created":            "r.open",
-	"Register local ack channel for shard":                   "r.setAck",
-	"Register local receiver cancel function for shard":      "r.setCancel",
-	"Remove local ack channel for shard":                     "r.rmAck",
-	"Register remote send channel for shard":                 "s.start",
-	"RegisterShard":                                          "s.set",
-	"Sending pending watermark to newly registered shard":    "s.replay",
-	"UnregisterShard completed":                              "s.rmChan",
+	"streamRouting started":                                                    "r.start",
+	"Terminating previous local receiver for shard":                            "r.term",
+	"Remove local receiver cancel function for shard":                          "r.termRm|r.rmCancel", // resolved by the receiver's previous point
+	"Force remove local ack channel for shard":                                 "r.termAck",
+	"proxyStreamReceiver outgoingContext created":                              "r.open",
+	"Register local ack channel for shard":                                     "r.setAck",
+	"Register local receiver cancel function for shard":                        "r.setCancel",
+	"Remove local ack channel for shard":                                       "r.rmAck",
+	"Register remote send channel for shard":                                   "s.start",
+	"RegisterShard":                                                            "s.set",
+	"Sending pending watermark to newly registered shard":                      "s.replay",
+	"UnregisterShard completed":                                                "s.rmChan",
 	"Skipped unregistering shard (timestamp mismatch or already unregistered)": "s.rmChan",
 }
 
@@ -196,12 +196,12 @@ type c08Inc struct {
 	lastRPos string
 	// facts for the monitor (step numbers; 0 = has not happened)
 	openFailed     bool
-	tSet, tAdd     int // SetRemoteSendChan / addLocalShard ran
-	tGet, tReg     int // the receiver's start-up began (GetLocalReceiverCancelFunc) / ended (RegisterActiveReceiver)
-	tCheck         int // the clean-up's context check ran
-	tCancelled     int // a successor's TerminatePreviousLocalReceiver cancelled our context
-	terminatedBy   int // ... that successor (-1: none)
-	gotCancelOf    int // whose cancel function our TerminatePreviousLocalReceiver found (-1: none)
+	tSet, tAdd     int   // SetRemoteSendChan / addLocalShard ran
+	tGet, tReg     int   // the receiver's start-up began (GetLocalReceiverCancelFunc) / ended (RegisterActiveReceiver)
+	tCheck         int   // the clean-up's context check ran
+	tCancelled     int   // a successor's TerminatePreviousLocalReceiver cancelled our context
+	terminatedBy   int   // ... that successor (-1: none)
+	gotCancelOf    int   // whose cancel function our TerminatePreviousLocalReceiver found (-1: none)
 	addInUnregOf   []int // our addLocalShard ran while these incarnations sat between the two deletes of UnregisterShard
 	wipedBySecond  bool  // ... and the rest of UnregisterShard of one of them then removed our localShards entry
 	setInCleanupOf []int // we registered cancel func / active receiver while these sat between their context check and their removals
@@ -235,29 +235,29 @@ type c08View struct {
 }
 
 type c08World struct {
-	t        *testing.T
-	mu       sync.Mutex
-	sm       proxy.ShardManager
-	srvX     adminservice.AdminServiceServer // serves streams whose client shard is in cluster 1
-	srvY     adminservice.AdminServiceServer // ... cluster 2
-	lifetime context.Context
-	stopAll  context.CancelFunc
-	incs     []*c08Inc
-	gids     map[int64]int
-	held     map[c08Key]*c08Hold
-	paused   map[string]bool
-	free     bool // teardown: nobody is held any more
-	shards   []int
-	adders   map[int][]int // shard -> incarnations in the order of their addLocalShard
-	sendOwner map[chan proxy.RoutedMessage]int
-	ackOwner  map[chan proxy.RoutedAck]int
-	recvOwner map[proxy.ActiveReceiver]int
-	cancelOwner map[int]int // shard -> incarnation that last registered a cancel func (harness knowledge)
-	base     map[string]bool // goroutines of the bubble that belong to the test framework
-	steps    int
-	artefact bool // the trace used `open!`
-	noTick   bool // `open!`: registrations of this op do not see time pass
-	viol     []map[string]any
+	t           *testing.T
+	mu          sync.Mutex
+	sm          proxy.ShardManager
+	srvX        adminservice.AdminServiceServer // serves streams whose client shard is in cluster 1
+	srvY        adminservice.AdminServiceServer // ... cluster 2
+	lifetime    context.Context
+	stopAll     context.CancelFunc
+	incs        []*c08Inc
+	gids        map[int64]int
+	held        map[c08Key]*c08Hold
+	paused      map[string]bool
+	free        bool // teardown: nobody is held any more
+	shards      []int
+	adders      map[int][]int // shard -> incarnations in the order of their addLocalShard
+	sendOwner   map[chan proxy.RoutedMessage]int
+	ackOwner    map[chan proxy.RoutedAck]int
+	recvOwner   map[proxy.ActiveReceiver]int
+	cancelOwner map[int]int     // shard -> incarnation that last registered a cancel func (harness knowledge)
+	base        map[string]bool // goroutines of the bubble that belong to the test framework
+	steps       int
+	artefact    bool // the trace used `open!`
+	noTick      bool // `open!`: registrations of this op do not see time pass
+	viol        []map[string]any
 }
 
 func c08Csid(c int) history.ClusterShardID {
@@ -882,10 +882,10 @@ func TestC08Child(t *testing.T) {
 // ---- parent: generation, child management, model protocol, monitor reports ----------------------------------
 
 type c08CaseResult struct {
-	ops     []string
-	obs     []string
-	viol    []map[string]any
-	crashed bool
+	ops      []string
+	obs      []string
+	viol     []map[string]any
+	crashed  bool
 	panicMsg string
 }
 
